@@ -110,6 +110,21 @@ static void cursor_tests(const char* path) {
             for (unsigned char ch : result) { o += d[ch >> 4]; o += d[ch & 15]; }
             std::printf("%s %s ok %s 0\n", kind.c_str(), hex.c_str(), o.c_str());
         }
+        if (kind == "oplenc") {                      // the writer's escaping of the C string in the buffer
+            std::string result{"R"};
+            const char* exc = nullptr;
+            try {
+                osmium::io::detail::append_utf8_encoded_string(result, s.c_str());
+            } catch (const std::out_of_range&) {
+                exc = "std::out_of_range";
+            } catch (const std::runtime_error&) {
+                exc = "std::runtime_error";
+            }
+            std::string o;
+            static const char* d = "0123456789abcdef";
+            for (unsigned char ch : result) { o += d[ch >> 4]; o += d[ch & 15]; }
+            std::printf("oplenc %s %s %s 0\n", hex.c_str(), exc ? exc : "ok", o.c_str());
+        }
         if (kind == "cpenc") {                       // the four bytes are a big-endian uint32_t code point
             const uint32_t cp = (uint32_t(uint8_t(s[0])) << 24) | (uint32_t(uint8_t(s[1])) << 16) | (uint32_t(uint8_t(s[2])) << 8) | uint32_t(uint8_t(s[3]));
             std::string result{"R"};
